@@ -66,6 +66,9 @@ CLAIMS = {
          "Decides the gate: a replica with a recovery strategy is marked up only behind strategy.AllowRecovery(), and every fuse records its time. Cool-down arithmetic is not covered.", "", "§4 C27"),
  "C28": ("who-may-call/who-may-write tables + edge dominance + must-pass on trigger edges",
          "Decides 'no other event changes a node's status' and 'up only after a successful probe; the stated triggers always mark down'. Elapsed-time and lag values are not covered.", "", "§4 C28"),
+ "C29": ("def-use shape analysis of the credential key (injective struct key vs string concatenation, interprocedural through the key constructor) + edge dominance in ClearNamespaceUsers + sibling agreement insert/lookup + phi-edge pairing in handleHandshakeResponse + wrapper forwarding + who-may-edit (fresh clone) over SSA",
+         "Decides the structure of the credential index only: injective key built the same way at insert and lookup, edits confined to `stored namespace == namespace being cleared` and to the iterated key's own components, rebuild = clear own name then add, Check*Password returns the matched element of users[user], Manager wrappers forward unchanged, the session is bound to GetNamespaceByUser(user, matched password), UserManagers are edited only as fresh clones. Not decided: the scramble arithmetic (C30), histories interleaving reloads with handshakes, duplicate (user,password) pairs across namespaces (excluded by the property's own assumption).",
+         "The property's assumption (passwords unique per user name) is taken as given.", "§9 C29"),
  "C31": ("edge dominance + must-pass-through on the prepare/commit gates of the two-slot reload, who-may-write on the slot switch",
          "Decides only the gates: a commit fails without a pending prepare and switches the slot only after consuming it; a prepare always parks a configuration rebuilt from the configuration it was given and sets the prepared flag; the active slot changes only in commit/delete; whoever else overwrites the inactive slot invalidates a pending prepare. The interleaving statement of the property (all histories of prepare/commit/delete, one complete generation per session) is not decided.",
          "", "§4 C31 / §9"),
@@ -94,7 +97,6 @@ NA = {
  "C13": "Value equality per column type between text and binary protocol rows.",
  "C14": "Agreement of the hand-written placeholder scanner with the SQL lexer over all texts (language equivalence over inputs).",
  "C15": "Quantifies over byte values of parameters and sql_mode; escaping correctness is a fact about string contents.",
- "C29": "Credential-to-namespace mapping across reloads depends on string contents (':' in passwords) and reload histories; the authentication gate itself is checked under C35.",
  "C30": "Equality with the mysql_native_password / caching_sha2 scrambles for all salts and passwords is a cryptographic value property.",
  "C36": "Metamorphic equality of the fingerprint over statement variants is a property of string transformations.",
 }
